@@ -1,0 +1,111 @@
+//! Observation hooks for external conformance checking. Compiled only with the
+//! `verif-hooks` cargo feature; nothing here is on the engine's code path except
+//! `probe`, which is a no-op unless a callback has been installed.
+use crate::define::Result;
+use crate::function::InnerFunctionManager;
+use crate::operator::{InfixOpManager, PostfixOpManager, PrefixOpManager};
+use crate::token::Token;
+use crate::tokenizer::Tokenizer;
+use std::sync::atomic::{AtomicU64, Ordering};
+use std::sync::{Arc, RwLock};
+
+pub use crate::descriptor::DescriptorManager;
+
+pub type ProbeFn = dyn Fn(&'static str, u64) + Send + Sync + 'static;
+
+static PROBE: RwLock<Option<Arc<ProbeFn>>> = RwLock::new(None);
+static SEQ: AtomicU64 = AtomicU64::new(0);
+
+/// Install (or clear) the probe callback. The callback receives the site name and a
+/// process-wide sequence number taken when the site was reached.
+pub fn set_probe(f: Option<Arc<ProbeFn>>) {
+    *PROBE.write().unwrap() = f;
+}
+
+/// Next value of the process-wide sequence counter (for events emitted by a harness).
+pub fn next_seq() -> u64 {
+    SEQ.fetch_add(1, Ordering::SeqCst)
+}
+
+pub fn probe(site: &'static str) {
+    let f = match PROBE.read() {
+        Ok(g) => g.clone(),
+        Err(_) => None,
+    };
+    if let Some(f) = f {
+        let seq = next_seq();
+        f(site, seq);
+    }
+}
+
+/// One token as seen by the parser: (kind, text, byte start, byte end).
+pub type TokenRec = (&'static str, String, usize, usize);
+
+/// Drives the tokenizer to EOF exactly as the parser does (one `next()` per token).
+/// Does not call `init()` itself.
+pub fn tokenize(input: &str) -> Result<Vec<TokenRec>> {
+    let mut t = Tokenizer::new(input);
+    let mut out = Vec::new();
+    loop {
+        let tok = t.next()?;
+        let rec = match tok {
+            Token::Operator(s, sp) => ("op", s.to_string(), sp.0, sp.1),
+            Token::Delim(d, sp) => ("delim", d.string(), sp.0, sp.1),
+            Token::Number(d, sp) => ("num", d.to_string(), sp.0, sp.1),
+            Token::Comma(s, sp) => ("comma", s.to_string(), sp.0, sp.1),
+            Token::Bool(b, sp) => ("bool", b.to_string(), sp.0, sp.1),
+            Token::String(s, sp) => ("str", s.to_string(), sp.0, sp.1),
+            Token::Reference(s, sp) => ("ref", s.to_string(), sp.0, sp.1),
+            Token::Function(s, sp) => ("fun", s.to_string(), sp.0, sp.1),
+            Token::Semicolon(s, sp) => ("semi", s.to_string(), sp.0, sp.1),
+            Token::EOF => break,
+        };
+        out.push(rec);
+    }
+    Ok(out)
+}
+
+/// Runs the engine's lazy one-time initialisation (what every public entry point does first).
+pub fn init() {
+    crate::init::init();
+}
+
+/// `true` for each global store whose mutex is currently free and not poisoned:
+/// [prefix, infix, postfix, function, descriptor].
+pub fn locks_free() -> [bool; 5] {
+    [
+        PrefixOpManager::new().verif_lock_free(),
+        InfixOpManager::new().verif_lock_free(),
+        PostfixOpManager::new().verif_lock_free(),
+        InnerFunctionManager::new().store.try_lock().is_ok(),
+        DescriptorManager::new().verif_lock_free(),
+    ]
+}
+
+#[derive(Debug, Clone, PartialEq)]
+pub struct RegistrySnapshot {
+    /// (name, handler identity)
+    pub prefix: Vec<(String, usize)>,
+    /// (name, precedence, is_setter, is_right_assoc, handler identity)
+    pub infix: Vec<(String, i32, bool, bool, usize)>,
+    pub postfix: Vec<(String, usize)>,
+    pub function: Vec<(String, usize)>,
+}
+
+/// Names, configuration and `Arc` pointer identity of every registered entry, sorted by name.
+pub fn registry_snapshot() -> RegistrySnapshot {
+    let mut function: Vec<(String, usize)> = InnerFunctionManager::new()
+        .store
+        .lock()
+        .unwrap()
+        .iter()
+        .map(|(k, v)| (k.clone(), Arc::as_ptr(v) as *const () as usize))
+        .collect();
+    function.sort();
+    RegistrySnapshot {
+        prefix: PrefixOpManager::new().verif_snapshot(),
+        infix: InfixOpManager::new().verif_snapshot(),
+        postfix: PostfixOpManager::new().verif_snapshot(),
+        function,
+    }
+}
